@@ -113,6 +113,20 @@ Theorem c19_client_model marshal parse_view (L : json_law marshal parse_view) r 
   forall jtv, api_request marshal parse_view r = client (status r) (body_view (body r) tv jtv).
 Proof. exact (api_request_abs marshal parse_view L r tv). Qed.
 
+(* [core] the client's fetch (apiGet: http.Get + ioutil.ReadAll): however the transport splits the response
+   body into reads -- 1 byte at a time, empty reads, the end arriving with or after the last
+   bytes -- the client holds the concatenation, so two deliveries of the same body give the
+   same ApiRequest result; the body fetched in the correspondence run is the wire body *)
+Theorem c19_fetch segs1 segs2 dt1 dt2 :
+  List.concat segs1 = List.concat segs2 -> fetch segs1 dt1 [] = fetch segs2 dt2 [].
+Proof. exact (fetch_segmentation segs1 segs2 dt1 dt2). Qed.
+
+Theorem c19_fetch_whole segs dt : fetch segs dt [] = List.concat segs.
+Proof. exact (fetch_concat dt segs []). Qed.
+
+Theorem c19_fetched_is_wire fx w got : fetched fx w = Some got -> got = w.
+Proof. exact (fetched_wire fx w got). Qed.
+
 (* replaced Filter hooks (public variables of the package): with FilterData replaced, whatever
    object the hook returns is what is marshalled and sent -- with the status the object declares
    through HTTPStatus, 200 otherwise -- and the client half sees exactly that object: code
@@ -173,6 +187,9 @@ Print Assumptions c19_unmarshalable.
 Print Assumptions c19_never_confused.
 Print Assumptions c19_plain_2xx_refuted.
 Print Assumptions c19_client_model.
+Print Assumptions c19_fetch.
+Print Assumptions c19_fetch_whole.
+Print Assumptions c19_fetched_is_wire.
 Print Assumptions c19_filter_hook.
 Print Assumptions c19_client_jsonp.
 Print Assumptions c19_utf8_ascii.
